@@ -1,13 +1,16 @@
 package main
 
 import (
+	"bufio"
 	"bytes"
 	"encoding/hex"
 	"fmt"
 	"os"
 	"reflect"
-	"time"
+	"strconv"
 	"strings"
+	"sync"
+	"time"
 
 	"github.com/bronlabs/bron-crypto/pkg/base/serde"
 )
@@ -23,6 +26,11 @@ type c12Case[T any] struct {
 	valid func(v T) error
 	// heavy types get fewer values/mutants
 	weight int
+	// recogniser of the algebraic leaves (scalars / points) inside this type's encodings, for the
+	// structure-preserving value edits; nil: only integer and big-number leaves are edited
+	fam *c12LeafFamily
+	// value generation is too slow for the quick tier (e.g. 3072-bit Paillier key generation)
+	thoroughOnly bool
 }
 
 type c12Runner func(c *Ctx, r *Rng, scale int)
@@ -92,10 +100,18 @@ func c12Marshal[T any](v T) (out []byte, res string) {
 }
 
 func c12RunCase[T any](c *Ctx, r *Rng, tc c12Case[T], scale int) {
+	if tc.thoroughOnly && scale == 1 {
+		c.Count("skipped-in-quick." + tc.name)
+		return
+	}
 	nVals, nMut := 3*scale, 70*scale
 	if tc.weight > 1 {
-		nVals = max(1, nVals/tc.weight)
+		nVals = max(2, nVals/tc.weight)
 		nMut = max(20, nMut/tc.weight)
+		if scale > 1 {
+			// thorough: the heavy types (shards: 3-30 kB per encoding) get half the values
+			nVals = max(2, nVals/2)
+		}
 	}
 	kinds := append(append([]string{}, c12ByteKinds...), c12TreeKinds...)
 	for vi := 0; vi < nVals; vi++ {
@@ -167,6 +183,20 @@ func c12RunCase[T any](c *Ctx, r *Rng, tc c12Case[T], scale int) {
 		if vi == 0 {
 			c12Direct(c, tc)
 		}
+		// structure-preserving value edits: every scalar / point / integer leaf, one at a time
+		perLeaf, sample := 2, 6
+		if tc.weight > 2 {
+			perLeaf, sample = 2, 3
+		}
+		if scale > 1 {
+			perLeaf, sample = 0, 24
+			if tc.weight > 1 {
+				perLeaf, sample = 3, 10
+			}
+		}
+		for _, m := range c12ValueEdits(r, b1, tc.fam, perLeaf, sample) {
+			c12Mutant1(c, tc, v, m)
+		}
 		for mi := 0; mi < nMut; mi++ {
 			kind := kinds[r.IntN(len(kinds))]
 			m := c12Mutate(r, b1, kind)
@@ -193,7 +223,11 @@ func c12Mutant1[T any](c *Ctx, tc c12Case[T], orig T, m *c12Mutant) {
 	res, v, ok := c12Decode[T](m.bytes)
 	c.Count("mut." + m.kind + "." + strings.SplitN(res, ":", 2)[0])
 	if strings.HasPrefix(res, "panic") {
-		c.Violation(fmt.Sprintf("%s: decoder panicked on %s mutant %s: %s", tc.name, m.kind, hexBytes(m.bytes), res))
+		label := m.kind
+		if m.label != "" {
+			label = m.label
+		}
+		c.Violation(fmt.Sprintf("%s: decoder panicked on %s mutant %s: %s", tc.name, label, hexBytes(m.bytes), res))
 		c.Emit(lhs, "reject")
 		return
 	}
@@ -271,18 +305,50 @@ func c12Direct[T any](c *Ctx, tc c12Case[T]) {
 	}
 }
 
+// runC12: the generic part, then every registered type.  The types are independent (own Rng, own
+// value sources), so they run on a small worker pool; their lines are written in registration
+// order, so the stream is a function of the seed alone.
 func runC12(c *Ctx) {
 	scale := 1
 	if c.Thorough() {
 		scale = 12
 	}
 	c12Generic(c, scale)
-	for i, t := range c12Types {
-		r := NewRng(c.Seed, 12000+uint64(i))
-		t0 := time.Now()
-		t.run(c, r, scale)
-		if d := time.Since(t0); d > 2*time.Second {
-			fmt.Fprintf(os.Stderr, "c12: %s took %v\n", t.name, d)
+	workers := 6
+	if w, err := strconv.Atoi(os.Getenv("VERIF_WORKERS")); err == nil && w > 0 {
+		workers = w
+	}
+	type result struct {
+		buf   bytes.Buffer
+		stats map[string]int
+		dur   time.Duration
+	}
+	results := make([]*result, len(c12Types))
+	sem := make(chan struct{}, workers)
+	var wg sync.WaitGroup
+	for i := range c12Types {
+		results[i] = &result{stats: map[string]int{}}
+		wg.Add(1)
+		go func(i int) {
+			defer wg.Done()
+			sem <- struct{}{}
+			defer func() { <-sem }()
+			w := bufio.NewWriterSize(&results[i].buf, 1<<16)
+			sub := &Ctx{Prop: c.Prop, Tier: c.Tier, Seed: c.Seed, Out: w, Stats: results[i].stats}
+			t0 := time.Now()
+			c12Types[i].run(sub, NewRng(c.Seed, 12000+uint64(i)), scale)
+			_ = w.Flush()
+			results[i].dur = time.Since(t0)
+		}(i)
+	}
+	wg.Wait()
+	for i, rs := range results {
+		_, _ = c.Out.Write(rs.buf.Bytes())
+		for k, v := range rs.stats {
+			c.Stats[k] += v
+		}
+		if rs.dur > 5*time.Second {
+			fmt.Fprintf(os.Stderr, "c12: %s took %v\n", c12Types[i].name, rs.dur)
 		}
 	}
 }
